@@ -320,6 +320,20 @@ def run(ck):
     for x in own_nodes(ex.node):
         if isinstance(x, ast.Return) and isinstance(x.value, ast.Dict):
             keys = [ast.literal_eval(k) for k in x.value.keys]
+        elif isinstance(x, ast.Return) and isinstance(x.value, ast.Name):
+            # a dict built step by step: the display it starts from plus constant-key stores
+            nm_ = x.value.id
+            ks_ = set()
+            for y in own_nodes(ex.node):
+                if isinstance(y, ast.Assign) and any(norm(t) == nm_ for t in y.targets) and isinstance(y.value, ast.Dict) \
+                        and all(isinstance(k, ast.Constant) for k in y.value.keys):
+                    ks_ |= {k.value for k in y.value.keys}
+                if isinstance(y, ast.Assign):
+                    for t in y.targets:
+                        if isinstance(t, ast.Subscript) and norm(t.value) == nm_ and isinstance(t.slice, ast.Constant):
+                            ks_.add(t.slice.value)
+            if ks_:
+                keys = sorted(ks_)
     rc = td.methods['_event_reconfig']
     kwonly = [a.arg for a in rc.node.args.kwonlyargs]
     ifv = prog.resolve_method(td, 'init_from_value')
